@@ -175,6 +175,9 @@ def run(ctx, report: Report) -> None:
     r3 = report.rule('C19-R3', 'any-of-list substring semantics: joined descendant text vs. one own text node', floor=20)
     _, mc = src.func('css_match.CSSMatch.match_contains')
     own_nodes, joined = ['ab', 'cd'], 'abXcd'       # own text nodes of the element / text of all descendants
+    from .sem import real_matcher
+    from ..tables import build_tree
+    _doc, _order, _L = build_tree([('div', {}, [('p', {'_label': 'p'}, ['ab', ('b', {}, ['X']), 'cd'])])])
 
     def contains_case(lists, is_html):
         calls = []
@@ -187,7 +190,9 @@ def run(ctx, report: Report) -> None:
             calls.append(('get_own_text', no_iframe))
             return list(own_nodes)
         stubs = {'css_match._DocumentNav.get_text': get_text, 'css_match._DocumentNav.get_own_text': get_own_text}
-        me = Obj(_cls='css_match.CSSMatch', _name='matcher', is_html=is_html, is_xml=not is_html)
+        me = real_matcher(ctx, _L['p'])
+        me.set('is_html', is_html)
+        me.set('is_xml', not is_html)
         cl = tuple(Obj(_cls='css_types.SelectorContains', _name='SelectorContains', text=tuple(t), own=o) for t, o in lists)
         try:
             return bool(call_function(ctx, 'css_match.CSSMatch.match_contains', [Obj(_name='el'), cl], {}, stubs, me)), calls
@@ -221,6 +226,31 @@ def run(ctx, report: Report) -> None:
                      f'descendant text is {joined!r} ({"HTML" if is_html else "XML"} document, text reads {calls}); expected {exp} with '
                      f'no_iframe={is_html} on every read: descendant text is searched as one joined string, own text node by node, a '
                      f'list is any-of, several pseudo-classes are a conjunction')
+
+    # one matcher, two elements whose markup compares equal although one holds a comment and the other text (bs4 compares
+    # strings by their characters): the text read for the first must not be served for the second
+    _d2, _o2, _L2 = build_tree([('ul', {}, [('li', {'_label': 'c'}, [('#comment', 'sold out')]), ('li', {'_label': 't'}, ['sold out']),
+                                            ('li', {'_label': 'c2'}, [('#comment', 'sold out')])])])
+    for order_ in (('c', 't', 'c2'), ('t', 'c', 't')):
+        me = real_matcher(ctx, _L2['c'])
+        needle = (Obj(_cls='css_types.SelectorContains', _name='SelectorContains', text=('sold out',), own=False),)
+        got = []
+        for lab in order_:
+            try:
+                got.append(bool(call_function(ctx, 'css_match.CSSMatch.match_contains', [_L2[lab], needle], {},
+                                              {'util.lower': (lambda v: v), 'css_match.CSSMatch.supports_namespaces': lambda: False}, me)))
+            except Raised as e:
+                got.append(f'raises {e.exc_name}')
+            except Unsupported as e:
+                raise AnalysisError(f'match_contains on a tree: outside the evaluable fragment: {e}')
+        exp = [lab == 't' for lab in order_]
+        r3.instance({'elements_visited_with_one_matcher': list(order_), 'contains("sold out")': got, 'expected': exp}, key=f'seq|{order_}')
+        r3.obligation(got == exp)
+        if got != exp:
+            r3.violation('css_match.CSSMatch.match_contains sequence', mmod.where(mc),
+                         f':-soup-contains("sold out") evaluated with one matcher on <li><!--sold out--></li> (c) and <li>sold out</li> (t) in '
+                         f'the order {list(order_)} gives {got}, expected {exp}: text remembered for one element is served for another '
+                         f'that merely compares equal (bs4 compares tags by markup and strings by characters; the memo must be keyed by identity)')
 
     # ---- R4 ----------------------------------------------------------------------------------------------
     r4 = report.rule('C19-R4', 'needles reach the IR undistorted', floor=2)
